@@ -19,6 +19,7 @@ import (
 	"github.com/openbao/openbao/sdk/v2/helper/verifx"
 	"github.com/openbao/openbao/sdk/v2/logical"
 	"github.com/openbao/openbao/sdk/v2/physical"
+	"github.com/openbao/openbao/sdk/v2/physical/inmem"
 	"github.com/openbao/openbao/v2/internal/audit"
 	"github.com/openbao/openbao/v2/internal/helper/namespace"
 	"github.com/openbao/openbao/v2/internal/vault/seal"
@@ -59,6 +60,7 @@ type coreOpts struct {
 	audits        map[string]audit.Factory
 	noInit        bool // storage already initialised (restart)
 	keys          [][]byte
+	ha            bool // single node with an in-memory HA lock: unseal goes to standby, then acquires leadership
 }
 
 type tcore struct {
@@ -98,6 +100,15 @@ func newCoreConfig(ct *caseT, o *coreOpts) *CoreConfig {
 		conf.Seal = NewTestSeal(ct, &seal.TestSealOpts{Logger: log.NewNullLogger()})
 	}
 	conf.NumExpirationWorkers = numExpirationWorkersTest
+	if o.ha {
+		hab, err := inmem.NewInmemHA(nil, log.NewNullLogger())
+		if err != nil {
+			panic(err)
+		}
+		conf.HAPhysical = hab.(physical.HABackend)
+		conf.RedirectAddr = "http://127.0.0.1:8200"
+		manualStepDownSleepPeriod = 5 * time.Millisecond
+	}
 	return conf
 }
 
@@ -167,7 +178,56 @@ func (tc *tcore) unseal(keys [][]byte) error {
 	if tc.c.Sealed() {
 		return fmt.Errorf("core still sealed after unseal")
 	}
+	if tc.opts.ha {
+		if err := tc.waitActive(30 * time.Second); err != nil {
+			return err
+		}
+	}
 	return nil
+}
+
+// stepDown makes the active node of an HA-enabled single-node cluster give up leadership and waits until it has
+// acquired it again (new expiration manager, leases restored from storage).
+func (tc *tcore) stepDown() error {
+	tc.quiesceRestore()
+	old := tc.c.expiration
+	if err := tc.c.StepDown(context.Background(), &logical.Request{Operation: logical.UpdateOperation, Path: "sys/step-down", ClientToken: tc.root}); err != nil {
+		tc.t.Fatalf("harness: step-down: %v", err)
+	}
+	deadline := time.Now().Add(30 * time.Second)
+	for time.Now().Before(deadline) {
+		tc.c.stateLock.RLock()
+		cur, standby := tc.c.expiration, tc.c.Standby()
+		tc.c.stateLock.RUnlock()
+		if cur != nil && cur != old && !standby {
+			break
+		}
+		time.Sleep(time.Millisecond)
+	}
+	if err := tc.waitActive(30 * time.Second); err != nil {
+		return err
+	}
+	if tc.opts.cacheOff {
+		tc.c.physicalCache.SetEnabled(false)
+		tc.c.physicalCache.Purge(tc.ctx)
+	}
+	tc.quiesceRestore()
+	return nil
+}
+
+// waitActive waits until an HA-enabled core has acquired leadership and finished its post-unseal setup.
+func (tc *tcore) waitActive(d time.Duration) error {
+	deadline := time.Now().Add(d)
+	for time.Now().Before(deadline) {
+		if tc.c.Sealed() {
+			return fmt.Errorf("core sealed while waiting for leadership")
+		}
+		if !tc.c.Standby() {
+			return nil
+		}
+		time.Sleep(time.Millisecond)
+	}
+	return fmt.Errorf("core did not become active within %v", d)
 }
 
 // quiesceRestore waits (bounded) until the expiration manager has finished restoring leases. Sealing or shutting
